@@ -37,8 +37,13 @@ Record step := { s_env : env; s_caller : nat; s_op : op V; s_obs : obs }.
 Inductive case :=
 | Case (callers : list caller) (steps : list step)
 | Golden (expected observed : disk_dump)    (* a file written by the pinned release, reopened by the current tree *)
-| Conc (callers : list caller) (calls : list (nat * op V)) (log : list entry).
+| Conc (callers : list caller) (calls : list (nat * op V)) (log : list entry)
     (* concurrent callers on a real audit file: the parsed lines of the file afterwards *)
+| AuditFile (tr : list N).
+    (* the system calls a server process made on its audit log file (audit.NewFile), abstracted by the
+       harness: 1 = opened O_WRONLY|O_APPEND|O_CREAT with mode 0600, 2 = a write of exactly one complete
+       JSON line, 3 = a successful fsync, 4 = close; 7 = opened otherwise, 8 = any other write, 9 = a call
+       that modifies the file in another way (truncate, rename, unlink, chmod) *)
 
 Definition nobody : caller := {| principal := 0; rules := [] |}.
 Definition get_caller (cs : list caller) (i : nat) : caller := nth i cs nobody.
@@ -145,6 +150,7 @@ Definition check_C03 (c : case) : bool :=
   | Case cs steps => run_pure judge_C03 cs start steps
   | Golden expected observed => disk_beq expected observed
   | Conc _ _ _ => true
+  | AuditFile _ => true
   end.
 
 (* ---------- C04 (rollback part): after a failed save the state served, the file, the
@@ -253,11 +259,28 @@ Definition expected_entry (cs : list caller) (call : nat * op V) : entry :=
      e_version := match o with OGetVer _ v | OActivate _ v | ODelVer _ v => v | _ => 0 end;
      e_authorized := match o with OList => true | _ => allow (rules c) a (target o) end |}.
 
+(* "appended and synced": the log is opened append-only and owner-only; every record is ONE write of one
+   complete line, and it is followed by a successful fsync before the next record (i.e. before the call
+   that wrote it goes on to take effect); nothing else ever touches the file; closing may sync once more *)
+Fixpoint audit_records_ok (tr : list N) : bool :=
+  match tr with
+  | [] => true
+  | 2 :: 3 :: r => audit_records_ok r
+  | [3; 4] | [4] => true
+  | _ => false
+  end.
+Definition audit_file_ok (tr : list N) : bool :=
+  match tr with
+  | 1 :: 2 :: 3 :: r => audit_records_ok r   (* at least one record was written *)
+  | _ => false
+  end.
+
 Definition check_C06 (c : case) : bool :=
   match c with
   | Case cs steps => run_resync judge_C06 cs start (Some []) steps
   | Conc cs calls log => perm_beq (map (expected_entry cs) calls) log
   | Golden _ _ => true
+  | AuditFile tr => audit_file_ok tr
   end.
 
 (* ---------- C09: conditional get ---------- *)
